@@ -103,8 +103,8 @@ def handle : List String → Option String
     some (lokiSeries (← out? pl) (← out? fo) (← parsed? s) (← parsed? e) (← bool? nm) (← out? sv)).name
   | ["c12ctl", "lokiTail", pl, qe, sv, up] => do
     some (lokiTail (← out? pl) (← bool? qe) (← out? sv) (← bool? up)).name
-  | ["c12ctl", "promLabels", pl, fo, sv] => do
-    some (promLabels (← out? pl) (← out? fo) (← out? sv)).name
+  | ["c12ctl", "promLabels", pl, fo, f2, sv] => do
+    some (promLabels (← out? pl) (← out? fo) (← out? f2) (← out? sv)).name
   | ["c12ctl", "promLabelValues", pl, pa, ne, sv, s0] => do
     some (promLabelValues (← out? pl) (← out? pa) (← bool? ne) (← out? sv) (← out? s0)).name
   | ["c12ctl", "promSeries", pl, fo, f2, sv] => do
